@@ -7,6 +7,8 @@ import Proofs.C09Sharp
 import Proofs.C09Cache
 import GoawkModel.C09Digits
 import Proofs.C09Scan
+import GoawkModel.C09Chars
+import Proofs.C09Chars
 /-! Property theorems for C09 (see /verif/DESIGN.md). Only property theorems and non-vacuity examples live here.
 
 `goFormat` is what `fmt.Sprintf` does with one conversion GoAWK hands it, `cFormat` is ISO C `printf` for the argument converted
@@ -123,6 +125,93 @@ theorem chr_of_string_is_first_byte (a : Arg) (h : a.isStr = true) :
 
 example : goFormat dg0 ⟨{ minus := true }, some 3, none, 115⟩ (.bytes [65]) = some ([65, 32, 32] /- "A  " -/) := by decide
 
+/-! ### character mode (`-c` / `Config.Chars`): `%c` of a string is its first character; `%s` counts characters
+
+`wellFormedSeq` (GoawkModel/C09Chars.lean) is table 3-7 of the Unicode Standard, stated independently of `runeSize` (the model of
+`utf8.DecodeRuneInString` that `charBytes` uses). -/
+
+/-- **`%c` of a string in character mode is its first character**: the well-formed UTF-8 sequence the string starts with, and
+the single first byte when no prefix of the string is well formed (stray continuation byte, truncated sequence, overlong form,
+surrogate, lead byte above 0xF4, Latin-1 text). In particular a lead byte never drags the following bytes along. -/
+theorem chars_chr_is_first_char (a : Arg) (h : a.isStr = true) (hne : a.s ≠ []) :
+    IsFirstChar a.s (charBytes true a) := by
+  cases hs : a.s with
+  | nil => exact absurd hs hne
+  | cons b0 rest =>
+    have : charBytes true a = (b0 :: rest).take (runeSize (b0 :: rest)) := by simp [charBytes, h, hs]
+    rw [this]; exact take_runeSize_isFirstChar b0 rest
+
+/-- … spelled out: a string that starts with a well-formed sequence `p` prints exactly `p` -/
+theorem chars_chr_wellformed (a : Arg) (h : a.isStr = true) (p rest : Bytes) (hs : a.s = p ++ rest) (hw : wellFormedSeq p = true) :
+    charBytes true a = p := by
+  have hsz := runeSize_of_wellFormed p rest hw
+  cases hp : p with
+  | nil => rw [hp] at hw; simp [wellFormedSeq] at hw
+  | cons b0 p' =>
+    rw [hp] at hs hsz
+    simp only [List.cons_append] at hs hsz
+    simp only [charBytes, h, hs, if_true, hsz]
+    simp
+
+/-- … and a string none of whose prefixes is well formed prints its first byte alone, whatever follows -/
+theorem chars_chr_illformed (a : Arg) (h : a.isStr = true) (b : UInt8) (rest : Bytes) (hs : a.s = b :: rest)
+    (hno : ∀ p q, a.s = p ++ q → wellFormedSeq p = false) : charBytes true a = [b] := by
+  have hno' : ∀ k, wellFormedSeq ((b :: rest).take k) = false := fun k => hno _ _ (by rw [hs, List.take_append_drop])
+  simp [charBytes, h, hs, runeSize_of_illFormed b rest hno']
+
+/-- the character `%c` prints is one column of the field width, multi-byte or ill-formed alike: `fmt` pads it as C pads `%c` -/
+theorem chars_chr_one_column (dg : DigitGen) (cs : CSpec) (a : Arg) (h : a.isStr = true) (hne : a.s ≠ [])
+    (hverb : cs.verb = 99) (hdom : InCDomain cs) :
+    runeCount (charBytes true a) = 1 ∧
+    goFormat dg ⟨cs.fl, cs.width, cs.prec, 115⟩ (.bytes (charBytes true a)) = cFormat dg cs (.chr (charBytes true a)) := by
+  have h1 : runeCount (charBytes true a) = 1 := by
+    cases hs : a.s with
+    | nil => exact absurd hs hne
+    | cons b0 rest =>
+      have : charBytes true a = (b0 :: rest).take (runeSize (b0 :: rest)) := by simp [charBytes, h, hs]
+      rw [this]; exact runeCount_first_char b0 rest
+  exact ⟨h1, conv_chr dg cs _ hverb hdom (Or.inl h1)⟩
+
+/-- Latin-1 `é t é` (0xE9 is a 3-byte lead, `t` is no continuation byte): one byte; `€` (E2 82 AC): three; a truncated `€`
+(E2 82): one; the overlong C0 80: one -/
+example : charBytes true ⟨true, [0xE9, 0x74, 0xE9], .nan false⟩ = [0xE9] ∧ charBytes true ⟨true, [0xE2, 0x82, 0xAC, 0x41], .nan false⟩ = [0xE2, 0x82, 0xAC]
+    ∧ charBytes true ⟨true, [0xE2, 0x82], .nan false⟩ = [0xE2] ∧ charBytes true ⟨true, [0xC0, 0x80], .nan false⟩ = [0xC0] := by decide
+example : wellFormedSeq [0xE2, 0x82, 0xAC] = true ∧ wellFormedSeq [0xC0, 0x80] = false ∧ wellFormedSeq [0xED, 0xA0, 0x80] = false
+    ∧ wellFormedSeq [0xF4, 0x90, 0x80, 0x80] = false ∧ wellFormedSeq [0xE9] = false := by decide
+
+/-- **`%c` of a number in character mode is the character with that code**: for a Unicode scalar value `n` the bytes are the
+well-formed sequence whose code point is `n`; for every number they are one well-formed sequence, one column wide -/
+theorem chars_chr_of_number (a : Arg) (h : a.isStr = false) :
+    wellFormedSeq (charBytes true a) = true ∧ runeCount (charBytes true a) = 1 ∧
+    ∀ n : Nat, toInt32 a.n = (n : Int) → IsScalar n → codeOf (charBytes true a) = n := by
+  have hc : charBytes true a = encodeRune (toInt32 a.n) := by simp [charBytes, h]
+  rw [hc]
+  refine ⟨encodeRune_wellFormed _, runeCount_wellFormed _ (encodeRune_wellFormed _), ?_⟩
+  intro n hn hs
+  rw [hn]; exact codeOf_encodeRune n hs
+
+/-- 233 → `é` (C3 A9), 8364 → `€` (E2 82 AC), 128512 → F0 9F 98 80 -/
+example : charBytes true ⟨false, [], .fin false 233 0⟩ = [0xC3, 0xA9] ∧ charBytes true ⟨false, [], .fin false 8364 0⟩ = [0xE2, 0x82, 0xAC]
+    ∧ charBytes true ⟨false, [], .fin false 128512 0⟩ = [0xF0, 0x9F, 0x98, 0x80] ∧ IsScalar 8364 := by
+  refine ⟨by decide, by decide, by decide, ?_⟩
+  unfold IsScalar; omega
+
+/-- **`%s` in character mode-counting** (`fmt` always counts runes): the precision keeps the first `p` characters whole, the
+width pads to that many characters — `cFmtStrChars`, C's `%s` rule read on characters (`charsOf`: well-formed sequences, every
+other byte a character by itself) instead of bytes -/
+theorem sprintf_str_counts_characters (dg : DigitGen) (fl : Flags) (wid prec : Option Nat) (s : Bytes) (hz : fl.zero = false) :
+    goFormat dg ⟨fl, wid, prec, 115⟩ (.str s) = some (cFmtStrChars ⟨fl, wid, prec, 115⟩ s) := by
+  simp [goFormat, goFmtS_is_chars fl wid prec s hz]
+
+/-- the characters are a partition of the string, `fmt`'s rune count is their number, and each one is a first character -/
+theorem chars_partition (s : Bytes) :
+    (charsOf s).flatten = s ∧ runeCount s = (charsOf s).length ∧ ∀ n, truncRunes n s = ((charsOf s).take n).flatten :=
+  ⟨charsOf_flatten s.length s (Nat.le_refl _), runeCount_eq_chars s, fun n => truncRunes_eq_chars n s⟩
+
+/-- `%.2s` of `é € x` keeps `é €` (5 bytes); `%4.1s` of the ill-formed E2 82 41 keeps the lone lead byte, padded to 4 columns -/
+example : cFmtStrChars ⟨{}, none, some 2, 115⟩ [0xC3, 0xA9, 0xE2, 0x82, 0xAC, 0x78] = [0xC3, 0xA9, 0xE2, 0x82, 0xAC]
+    ∧ cFmtStrChars ⟨{}, some 4, some 1, 115⟩ [0xE2, 0x82, 0x41] = [32, 32, 32, 0xE2] := by decide
+
 /-! ### `e E f g G`, finite values -/
 
 /-- sign, `+`/space, `0` and `-` padding and width of the floating conversions are C's for every finite value; the precision is
@@ -228,6 +317,53 @@ theorem print_default_ofmt (dg : DigitGen) (x : F64) :
   simp [goPrintf, goPrintfAux, goParseWidth, goParsePrec, Res.prepend, goFormat, isGoFlag, isDigit, numVal, litTooLarge, goFlags]
 
 example : (-1 : Int) < 0 ∧ truncMag 3 (-1) * 2 ^ (1 : Nat) ≠ 3 := by decide
+
+/-- **an integral number outside int64 never takes the integer path**: from 2^63 upward (and below -2^63) `print` formats with
+OFMT — the digits of a wrapped or saturated int64 can never appear -/
+theorem print_beyond_int64_uses_ofmt (dg : DigitGen) (ofmt : Bytes) (neg : Bool) (m : Nat) (e : Int)
+    (hout : if neg then two63 < truncMag m e else two63 ≤ truncMag m e) :
+    numToStr dg ofmt (.fin neg m e) = goPrintf dg (addPrecG ofmt) [.f64 (.fin neg m e)] := by
+  cases neg with
+  | false =>
+    have h : ¬ truncMag m e < two63 := by simpa using hout
+    simp [numToStr, h]
+  | true =>
+    have h : ¬ truncMag m e ≤ two63 := by simp at hout; omega
+    simp [numToStr, h]
+
+/-- every finite number is written either as its own integer (exactly when it is integral and inside int64: sign and the
+decimal digits of its magnitude) or by OFMT — there is no third form -/
+theorem print_is_integer_or_ofmt (dg : DigitGen) (ofmt : Bytes) (neg : Bool) (m : Nat) (e : Int) :
+    ((e ≥ 0 ∨ truncMag m e * 2 ^ (-e).toNat = m) ∧ (if neg then truncMag m e ≤ two63 else truncMag m e < two63) ∧
+      numToStr dg ofmt (.fin neg m e) = .ok (if neg && truncMag m e ≠ 0 then 45 :: decimal (truncMag m e) else decimal (truncMag m e))) ∨
+    (¬ ((e ≥ 0 ∨ truncMag m e * 2 ^ (-e).toNat = m) ∧ (if neg then truncMag m e ≤ two63 else truncMag m e < two63)) ∧
+      numToStr dg ofmt (.fin neg m e) = goPrintf dg (addPrecG ofmt) [.f64 (.fin neg m e)]) := by
+  by_cases hi : (e ≥ 0 ∨ truncMag m e * 2 ^ (-e).toNat = m)
+  · by_cases hr : (if neg then truncMag m e ≤ two63 else truncMag m e < two63)
+    · left
+      refine ⟨hi, hr, ?_⟩
+      by_cases he : e ≥ 0
+      · cases neg <;> simp_all [numToStr]
+      · have hm : truncMag m e * 2 ^ (-e).toNat = m := hi.resolve_left he
+        cases neg <;> simp_all [numToStr]
+    · right
+      refine ⟨fun h => hr h.2, ?_⟩
+      cases neg
+      · have h' : ¬ truncMag m e < two63 := by simpa using hr
+        simp [numToStr, h']
+      · have h' : ¬ truncMag m e ≤ two63 := by simpa using hr
+        simp [numToStr, h']
+  · right
+    refine ⟨fun h => hi h.1, ?_⟩
+    have he : ¬ e ≥ 0 := fun h => hi (Or.inl h)
+    have hm : ¬ truncMag m e * 2 ^ (-e).toNat = m := fun h => hi (Or.inr h)
+    simp [numToStr, he, hm]
+
+/-- 2^63 (= 1·2^63, also the double nearest to the literal 9223372036854775807) goes to OFMT; -2^63 is an integer -/
+example (dg : DigitGen) (ofmt : Bytes) : numToStr dg ofmt (.fin false 1 63) = goPrintf dg (addPrecG ofmt) [.f64 (.fin false 1 63)] :=
+  print_beyond_int64_uses_ofmt dg ofmt false 1 63 (by decide)
+example : numToStr dg0 [] (.fin true 1 63) = .ok ([45, 57, 50, 50, 51, 51, 55, 50, 48, 51, 54, 56, 53, 52, 55, 55, 53, 56, 48, 56] /- "-9223372036854775808" -/) := by
+  simp [numToStr, truncMag, two63, decimal, natDigits, natDigitsAux, digitChar]
 
 /-! ### print in every output mode converts with OFMT; everything else converts with CONVFMT -/
 
